@@ -251,11 +251,14 @@ def qubit_finder(chk):
             out.append(("T", a, b))
         return out
     all_shapes = []
-    for sh in shapes(2) + [("T", ("A", ("T", "I", ("A", "Q"))), "I"), ("A", ("A", ("A", "Q"))), ("A", ("A", ("A", "I"))), ("F", ("A", ("A", "Q")), "I"), ("F", "I", ("T", "I", ("A", "Q"))), ("F", "I", "O")]:
+    # S{..}: a struct with fields of the given types; G[x]: a generic struct Box[T] with one field of type T, applied to x
+    STRUCTS = [("S", "Q"), ("S", "I"), ("S", "I", "Q"), ("S", ("A", "Q")), ("S", ("T", "I", "Q")), ("S", ("S", "Q")), ("S", ("S", "I"), "O"), ("A", ("S", "Q")), ("T", "I", ("S", "I", "Q")),
+               ("G", "Q"), ("G", "I"), ("G", ("A", "Q")), ("S", ("G", "Q")), ("G", ("S", "I", "Q")), ("F", ("S", "Q"), "I")]
+    for sh in shapes(2) + STRUCTS + [("T", ("A", ("T", "I", ("A", "Q"))), "I"), ("A", ("A", ("A", "Q"))), ("A", ("A", ("A", "I"))), ("F", ("A", ("A", "Q")), "I"), ("F", "I", ("T", "I", ("A", "Q"))), ("F", "I", "O")]:
         if sh not in all_shapes:
             all_shapes.append(sh)
     if chk.tier != "thorough":
-        all_shapes = [sh for i, sh in enumerate(all_shapes) if i < 40 or i % 5 == 0 or isinstance(sh, tuple) and sh[0] == "F"]
+        all_shapes = [sh for i, sh in enumerate(all_shapes) if i < 40 or i % 5 == 0 or isinstance(sh, tuple) and sh[0] == "F" or sh in STRUCTS]
 
     def has_q(sh):
         # a function VALUE carries no qubits, whatever its signature mentions
@@ -264,12 +267,13 @@ def qubit_finder(chk):
     def show(sh):
         if isinstance(sh, str):
             return {"Q": "qubit", "I": "int", "O": "opaque"}[sh]
-        return {"A": "array", "T": "tuple", "F": "fn"}[sh[0]] + "[" + ", ".join(show(x) for x in sh[1:]) + "]"
+        return {"A": "array", "T": "tuple", "F": "fn", "S": "struct", "G": "Box"}[sh[0]] + "[" + ", ".join(show(x) for x in sh[1:]) + "]"
     n = 0
     for sh in all_shapes:
         def t(it, sh=sh):
             m = e.module(TYM_)
-            OT, TT, NT, FT, FI = (it.lookup_global(m, k) for k in ("OpaqueType", "TupleType", "NumericType", "FunctionType", "FuncInput"))
+            OT, TT, NT, FT, FI, ST, BTV = (it.lookup_global(m, k) for k in ("OpaqueType", "TupleType", "NumericType", "FunctionType", "FuncInput", "StructType", "BoundTypeVar"))
+            SF = it.lookup_global(e.module("guppylang_internals.definition.struct"), "StructField")
             IF = it.lookup_global(m, "InputFlags")
             TA = it.lookup_global(e.module("guppylang_internals.tys.arg"), "TypeArg")
             CA = it.lookup_global(e.module("guppylang_internals.tys.arg"), "ConstArg")
@@ -287,19 +291,86 @@ def qubit_finder(chk):
                 if x == "O":
                     return it.call(OT, [[], odef], {})
                 if x[0] == "A":
-                    return it.call(OT, [[it.call(TA, [build(x[1])], {}), SObj(CA, {"const": SObj(ClassVal("ConstValue", builtin=True), {"value": 2})})], adef], {})
+                    return it.call(OT, [[it.call(TA, [build(x[1])], {}), it.call(CA, [it.call(it.lookup_global(e.module("guppylang_internals.tys.const"), "ConstValue"), [it.call(NT, [it.getattr(it.getattr(NT, "Kind"), "Nat")], {}), 2], {})], {})], adef], {})
                 if x[0] == "T":
                     return it.call(TT, [[build(y) for y in x[1:]]], {})
+                if x[0] == "S":
+                    sdef = SObj(ClassVal("CheckedStructDef", builtin=True), {"name": "S", "params": [], "fields": [it.call(SF, [f"f{j}", build(y)], {}) for j, y in enumerate(x[1:])]})
+                    return it.call(ST, [[], sdef], {})
+                if x[0] == "G":
+                    gdef = SObj(ClassVal("CheckedStructDef", builtin=True), {"name": "Box", "params": ["T"], "fields": [it.call(SF, ["v", it.call(BTV, ["T", 0, False, False], {})], {})]})
+                    return it.call(ST, [[it.call(TA, [build(x[1])], {})], gdef], {})
                 ins = [it.call(FI, [build(x[1]), it.getattr(IF, "NoFlags")], {})]
                 return it.call(FT, [ins, build(x[2])], {})
             return it.call(it.lookup_global(e.module(Q), "contain_qubit_ty"), [build(sh)], {})
         paths = e.explore(t)
         chk.prove_paths(f"contain_qubit_ty[{show(sh)}]=={has_q(sh)}", paths, lambda p, sh=sh: z3.BoolVal(p.kind == "return" and p.value is has_q(sh)), func=f"{Q}:contain_qubit_ty",
-                        replay=lambda m_, sh=sh: {"script": REPLAY_QUBIT_TY, "input": {"ty": show(sh).replace("opaque", "float").replace("fn[", "Callable[[").replace("array[", "array[").replace("]", "]")}} if "fn" not in show(sh) else None)
+                        replay=lambda m_, sh=sh: ({"script": REPLAY_STRUCT_Q, "input": {}} if "struct" in show(sh) or "Box" in show(sh) else
+                                                  {"script": REPLAY_QUBIT_TY, "input": {"ty": show(sh).replace("opaque", "float").replace("fn[", "Callable[[").replace("array[", "array[").replace("]", "]")}}) if "fn" not in show(sh) else None)
         n += 1
     chk.record("contain_qubit_ty:shapes-explored", n >= 40, str(n), kind="reachability")
     e.models.pop(f"{Q}:qubit_ty", None)
     chk.use_engine(e)
+
+
+REPLAY_STRUCT_Q = r'''
+import tempfile, importlib.util, os, sys, shutil
+import guppylang
+guppylang.enable_experimental_features()
+from guppylang_internals.error import GuppyError
+src = """from guppylang import guppy
+from guppylang.std.quantum import qubit
+from guppylang.std.builtins import array
+control = object()
+T = guppy.type_var("T", copyable=False, droppable=False)
+@guppy.struct
+class S:
+    q: qubit
+@guppy.struct
+class Deep:
+    n: int
+    s: S
+@guppy.struct
+class Box(Generic[T]):
+    v: T
+@guppy.declare
+def takes_s(s: S) -> None: ...
+@guppy.declare
+def takes_deep(s: Deep) -> None: ...
+@guppy.declare
+def takes_box(s: Box[qubit]) -> None: ...
+@guppy.declare
+def takes_arr(s: array[S, 2]) -> None: ...
+@guppy(control=True)
+def f_s(s: S) -> None:
+    takes_s(s)
+@guppy(control=True)
+def f_deep(s: Deep) -> None:
+    takes_deep(s)
+@guppy(control=True)
+def f_box(s: Box[qubit]) -> None:
+    takes_box(s)
+@guppy(control=True)
+def f_arr(s: array[S, 2]) -> None:
+    takes_arr(s)
+@guppy
+def f_with(s: S, c: qubit) -> None:
+    with control(c):
+        takes_s(s)
+"""
+src = "from typing import Generic\n" + src
+d = tempfile.mkdtemp(dir=os.environ.get("TMPDIR", "/var/tmp")); fn = os.path.join(d, "replay_c24s.py"); open(fn, "w").write(src)
+spec = importlib.util.spec_from_file_location("replay_c24s", fn); m = importlib.util.module_from_spec(spec); sys.modules["replay_c24s"] = m
+spec.loader.exec_module(m)
+res = {}
+for name in ("f_s", "f_deep", "f_box", "f_arr", "f_with"):
+    try:
+        getattr(m, name).check(); res[name] = "accepted"
+    except GuppyError as ex:
+        res[name] = "rejected:" + type(ex.error).__name__
+shutil.rmtree(d, ignore_errors=True)
+print(json.dumps({"violates": any(v == "accepted" for v in res.values()), "observed": res, "required": "a struct holding a qubit passed to a callee without the control flag is rejected in a control context"}))
+'''
 
 
 REPLAY_TENSOR = r'''
